@@ -203,3 +203,34 @@ Theorem healthy_delivery_precedes_read sA sB lA delivered delta gdel sigma T p :
   delta + gdel + sigma < T ->
   delivered < sB + p * T.
 Proof. intros. nia. Qed.
+
+(* ---- a delivered entry is merged: after gossip (single message, or any entry of a multi-entry full-state exchange
+   on join / push-pull) delivers an unexpired entry, the instance holds it or a newer one for that integration — so
+   its next dedup read sees at least that entry.  The cluster runs check exactly this on the real log, atomically
+   with every delivery (oracle delivered-log-entry-not-merged). ---- *)
+Lemma nf_merge_holds t cur en :
+  t <= n_exp en -> exists r, nf_merge t cur en = Some r /\ n_ts en <= n_ts r.
+Proof.
+  intros Hx. unfold nf_merge. assert (H : n_exp en <? t = false) by lia. rewrite H.
+  destruct cur as [p|]; [|exists en; split; [reflexivity|lia]].
+  destruct (n_ts p <? n_ts en) eqn:Ht; [exists en|exists p]; (split; [reflexivity|lia]).
+Qed.
+
+Theorem delivered_entry_is_merged cfg c i t k en c' o :
+  cstep cfg c i t (CDeliver k en) = Some (c', o) -> t <= n_exp en ->
+  exists s' r, c_inst c' !! i = Some s' /\ s_nflog s' !! k = Some (Some r) /\ n_ts en <= n_ts r.
+Proof.
+  intros H Hx. unfold cstep in H. destruct (c_inst c !! i) as [s|] eqn:Hs; [|discriminate].
+  destruct (negb (bool_decide ((k, en) ∈ c_logged c))); [discriminate|].
+  destruct (step cfg s t (ENflogMerge k en)) as [[s' o']|] eqn:Hst; [|discriminate].
+  injection H as <- <-. exists s'. cbn [c_inst].
+  assert (Hi : (i < length (c_inst c))%nat) by (apply lookup_lt_Some in Hs; exact Hs).
+  unfold step in Hst. destruct (time_ok s t); [|discriminate]. cbn [negb] in Hst.
+  destruct (s_nflog s !! k) as [ent|] eqn:Hk; [|discriminate]. injection Hst as <- <-.
+  destruct (nf_merge_holds t ent en Hx) as (r & Hr & Hle). exists r.
+  split.
+  - rewrite set_nth_lookup. destruct (decide (i = i)); [|congruence]. destruct (decide _); [reflexivity|lia].
+  - split; [|exact Hle]. cbn [s_nflog]. rewrite set_nth_lookup. destruct (decide (k = k)); [|congruence].
+    destruct (decide _) as [_|Hn]; [rewrite Hr; reflexivity|].
+    exfalso. apply Hn. apply lookup_lt_Some in Hk. exact Hk.
+Qed.
